@@ -454,6 +454,7 @@ impl Sink {
         } else {
             Box::new(std::fs::File::create(path).expect("create output"))
         };
+        let prop = CHK_OVERRIDE.get().map(|x| x.as_str()).unwrap_or(prop);
         Sink { out: std::io::BufWriter::with_capacity(1 << 20, w), prop: prop.to_string(), n: 0, splits: 0 }
     }
 
@@ -616,6 +617,8 @@ pub struct Cli {
     pub extra: Vec<String>,
 }
 
+pub static CHK_OVERRIDE: std::sync::OnceLock<String> = std::sync::OnceLock::new();
+
 pub fn parse_cli() -> Cli {
     let a: Vec<String> = std::env::args().collect();
     let mut c = Cli { out: "-".into(), seed: 0, tier: "quick".into(), only_width: None, prop: String::new(), extra: vec![] };
@@ -640,6 +643,11 @@ pub fn parse_cli() -> Cli {
             }
             "--prop" => {
                 c.prop = a[i + 1].clone();
+                i += 1;
+            }
+            "--chk" => {
+                // the check on whose behalf the drivers of another property are run (written to the `chk` field)
+                let _ = CHK_OVERRIDE.set(a[i + 1].clone());
                 i += 1;
             }
             x => c.extra.push(x.to_string()),
